@@ -417,8 +417,14 @@ def correspond(res, spec):
             if os.path.exists(jc):
                 allv, allo = pickle.load(open(jc, "rb"))
             else:
-                # inside the fragment of the Lean history theorems nothing is excused: no envelope
-                allv, allo = judge_hist.judge(ops, impl, judge_hist.ALL, ignore_envelope=(stream in ("frag", "fragboot")))
+                # inside the fragment of the Lean history theorems nothing is excused: no envelope.  For `fragboot` membership
+                # in the fragment is decided per history by the executable test `Restart.frag3B` (proved sound in Lean)
+                strict = None
+                if stream == "fragboot":
+                    strict, inside, total = fragment_membership(wd, ops)
+                    res.cov["streams"][stream]["fragment_membership"] = dict(
+                        decided_by="driver frag3 = Restart.frag3B (sound for Restart.Frag3: frag3_of_B)", histories=total, inside=inside)
+                allv, allo = judge_hist.judge(ops, impl, judge_hist.ALL, ignore_envelope=(stream in ("frag", "fragboot")), strict_lines=strict)
                 try:
                     pickle.dump((allv, allo), open(jc, "wb"))
                 except OSError:
@@ -463,6 +469,29 @@ def correspond(res, spec):
         escalate(res, spec)
 
 
+def fragment_membership(wd, ops):
+    """histories of a stream that lie inside Restart.Frag3, as decided by the model driver (`driver frag3`):
+    returns (set of the line numbers of their `hist` lines, number inside, number of histories)"""
+    import subprocess
+    with open(os.path.join(wd, "ops.txt")) as fi:
+        r = subprocess.run([C.DRIVER, "frag3"], stdin=fi, stdout=subprocess.PIPE, stderr=subprocess.PIPE, text=True, timeout=1500)
+    marks = [l for l in r.stdout.split("\n") if l != ""]
+    strict, total, cur, ok = set(), 0, None, True
+    if r.returncode != 0 or len(marks) != len(ops):
+        return set(), 0, sum(1 for o in ops if o.startswith("hist "))
+    for k, (o, m) in enumerate(zip(ops, marks)):
+        if o.startswith("hist "):
+            if cur is not None and ok:
+                strict.add(cur)
+            cur, ok = k, True
+            total += 1
+        elif m == "out":
+            ok = False
+    if cur is not None and ok:
+        strict.add(cur)
+    return strict, len(strict), total
+
+
 def escalate(res, spec):
     """a proof obligation or the correspondence broke and the quick streams showed no failing input: widen the search
     for one before giving up - the thorough-size streams of this property (and the restart / fragment streams), a few
@@ -485,7 +514,8 @@ def escalate(res, spec):
                 continue
             ops = C.op_lines(os.path.join(wd, "ops.txt"))
             impl = [l for l in C.read_lines(os.path.join(wd, "impl.txt")) if l != ""]
-            allv, _ = judge_hist.judge(ops, impl, want | {res.pid}, ignore_envelope=(stream in ("frag", "fragboot")))
+            strict = fragment_membership(wd, ops)[0] if stream == "fragboot" else None
+            allv, _ = judge_hist.judge(ops, impl, want | {res.pid}, ignore_envelope=(stream in ("frag", "fragboot")), strict_lines=strict)
             viol = [v for v in allv if v["prop"] in (want | {res.pid})]
             res.cov["escalated_search"].append(dict(stream=stream, seed=seed, lines=len(ops), violations=len(viol)))
             for v in viol[:3]:
